@@ -660,6 +660,7 @@ def load_seeds():
         _opt((18, b"\x00\x00\x00\x01\x00\x02")),
         _opt((65001, b"xyz"), (12, b"\0" * 9)),
         _opt((3, b""), (8, b"\x00\x01\x00\x00"), (11, b"\x00\x64"), (14, b"\x01\x02"), (13, b"")),
+        _opt((22, b"en"), (23, b"mailto:abuse@example.com"), (24, b"Example Org"), (25, b"blocklist-7")),
     ]
     for w in optw:
         s.rdatas.append((1232, 41, "", w))
@@ -942,7 +943,7 @@ def gen_probe(rng, s, entry=None):
         suf = bytes(rng.randrange(256) for _ in range(rng.choice([0, 0, 2])))
         return entry, [rdclass, rdtype, pre + w + suf, len(pre), rdlen, rng.randrange(4)]
     if entry == "edns_wire":
-        ot = rng.choice([3, 5, 6, 7, 8, 8, 8, 9, 10, 11, 12, 13, 14, 15, 15, 16, 18, 65001, 0])
+        ot = rng.choice([3, 5, 6, 7, 8, 8, 8, 9, 10, 11, 12, 13, 14, 15, 15, 16, 18, 22, 23, 24, 25, 65001, 0])
         w = bytes(rng.choice(INTERESTING_BYTES) if rng.random() < 0.5 else rng.randrange(256) for _ in range(rng.choice([0, 1, 2, 3, 4, 5, 7, 8, 12, 20, 24])))
         if ot == 8 and rng.random() < 0.7:
             fam = rng.choice([1, 2, 0, 3])
